@@ -527,6 +527,7 @@ def build_core(repo, external=(), canary=None, with_witness=True, boost=False):
     log["dropped"].append({"site": "src/error.rs struct Error", "text": "#[derive(Clone, Debug)]", "why": "neither impl is used by the functions under contract"})
     b.add(CLONE_IMPLS)
     b.add(VARIANT_IMPORT)
+    b.add(read("spec/core_prelude_term.rs"))
     b.add(read("spec/core_spec.rs"))
     b.add(read("spec/core_bounds.rs"))
     b.add(read("spec/core_laws.rs"))
@@ -1015,12 +1016,312 @@ def build_packrat(repo, external=(), canary=None, with_witness=True, boost=False
     return b
 
 
+# ---------------------------------------------------------------------------------------------
+# U6: resolve_variables + collect_definitions (C08)
+
+RESOLVE_HEADER = (
+    "// GENERATED by /verif/weave on every run from /repo's working tree -- do not edit.\n"
+    "#![allow(unused_imports, dead_code, unused_variables, non_snake_case, unused_mut, unused_parens, unused_braces, unused_macros, unused_assignments)]\n"
+    "use vstd::prelude::*;\nuse std::rc::Rc;\nuse std::cell::RefCell;\nuse std::convert::TryFrom;\nuse std::collections::HashSet;\n"
+    "verus! {\n"
+)
+
+TERM_VARIANT_IMPORT = VARIANT_IMPORT.replace("use crate::Variant::{", "use self::Variant::{")
+
+
+def r18_simple(w, start):
+    """R18 (scope guard, simple form): in a block without early exits
+         let context_cell = RefCell::new(context);
+         defer! {{ context_cell.borrow_mut().remove(X); }};
+         ..
+         let mut guard = context_cell.borrow_mut();
+         <tail expression using `&mut guard`>
+       becomes   .. ; let result = <tail expression using `context`>; context.remove(X); result"""
+    i = w.find(r"^\s*let context_cell = RefCell::new\(context\);$", start=start)
+    m = re.match(r"^\s*defer! \{\{ context_cell\.borrow_mut\(\)\.remove\((.*)\); \}\};$", w.lines[i + 1])
+    if not m:
+        raise LostAnchor(f"{w._where(i + 1)}: scope guard: expected `defer! {{{{ context_cell.borrow_mut().remove(..); }}}};`")
+    removed = m.group(1)
+    g = w.find(r"^\s*let mut guard = context_cell\.borrow_mut\(\);$", start=i)
+    k = g + 1
+    while k < len(w.lines) and not w.lines[k].strip().startswith("term::Term {"):
+        if w.lines[k].strip() and not w.lines[k].strip().startswith("//"):
+            raise LostAnchor(f"{w._where(k)}: scope guard: the tail expression is expected right after the borrow")
+        k += 1
+    e = w.block_end(k)
+    ind = re.match(r"^\s*", w.lines[k]).group(0)
+    for l in w.lines[i + 2 : g]:
+        if re.search(r"\b(return|break|continue)\b|\?;", l.split("//")[0]):
+            raise LostAnchor(f"{w._where(i)}: scope guard: early exit inside the guarded block")
+    body = [l.replace("&mut guard", "context") for l in w.lines[k : e + 1]]
+    body[0] = ind + "let result = " + body[0].lstrip()
+    body[-1] = body[-1] + ";"
+    keep = [l for n, l in enumerate(w.lines[i:k]) if (i + n) not in (i, i + 1, g)]
+    w.rewrite_lines("R18-scope-guard", i, e, keep + body + [ind + f"context.remove({removed});", ind + "result"],
+                    note="scopeguard idiom: the deferred statement runs when the block is left, i.e. after the tail expression (no early exit in the block); RefCell only serves to share `context` with the guard")
+    return i
+
+
+def r18_group(w, a):
+    """R18 (scope guard, tuple state) for the Let arm: `RefCell::new((context, vec![]))`, a deferred loop over the
+    second component, and `let (X, Y) = &mut (*guard);` re-borrows -> X is `context`, Y a local Vec, the deferred
+    loop is appended after the tail expression."""
+    i = w.find(r"^\s*let context_cell = RefCell::new\(\(context, vec!\[\]\)\);$", start=a)
+    d = i + 1
+    if w.lines[d].strip() != "defer! {{":
+        raise LostAnchor(f"{w._where(d)}: scope guard: `defer! {{{{` expected")
+    de = w.block_end(d)
+    defer_body = w.lines[d + 1 : de]
+    m = None
+    for l in defer_body:
+        m = m or re.match(r"^\s*let \((\w+), (\w+)\) = &mut \(\*guard\);$", l)
+    if not m:
+        raise LostAnchor(f"{w._where(d)}: scope guard: destructuring of the guarded pair not found")
+    ctx_alias, vec_name = m.group(1), m.group(2)
+    ind = re.match(r"^\s*", w.lines[i]).group(0)
+    is_borrow = lambda l: bool(re.match(r"^\s*let mut guard = context_cell\.borrow_mut\(\);$", l) or re.match(r"^\s*let \(\w+, (\w+|_)\) = &mut \(\*guard\);$", l))
+    loop = [l[4:] for l in defer_body if not is_borrow(l) and l.strip() != ""]
+    if not re.search(r" in %s \{$" % vec_name, loop[0]):
+        raise LostAnchor(f"{w._where(d)}: scope guard: deferred loop over `{vec_name}` expected")
+    loop[0] = loop[0].replace(f" in {vec_name} {{", f" in {vec_name}.iter() {{")
+    loop = [re.sub(r"\b%s\b" % ctx_alias, "context", l) for l in loop]
+    w.rewrite_lines("R18-scope-guard", i, de, [ind + f"let mut {vec_name} = vec![];"], note="guarded pair (context, names added): the second component becomes a local")
+    z = w.block_end(a)
+    k = a
+    while k <= z:
+        l = w.lines[k]
+        if is_borrow(l):
+            w.rewrite_lines("R18-scope-guard", k, k, [], note="re-borrow of the guarded pair dropped")
+            z -= 1
+            continue
+        if re.search(r"\b(return|break|continue)\b|\?;", l.split("//")[0]):
+            raise LostAnchor(f"{w._where(k)}: scope guard: early exit inside the guarded block")
+        if re.search(r"\b%s\b" % ctx_alias, l):
+            w.lines[k] = re.sub(r"\b%s\b" % ctx_alias, "context", l)
+        k += 1
+    t0 = None
+    for k in range(z - 1, a, -1):
+        if re.match(r"^            term::Term \{$", w.lines[k]):
+            t0 = k
+            break
+    if t0 is None or w.block_end(t0) != z - 1:
+        raise LostAnchor(f"{w._where(a)}: scope guard: tail expression of the Let arm not found")
+    body = w.lines[t0:z]
+    body[0] = "            let result = " + body[0].lstrip()
+    body[-1] += ";"
+    w.rewrite_lines("R18-scope-guard", t0, z - 1, body + loop + ["            result"], note="deferred loop appended after the tail expression")
+    return vec_name
+
+
+def enumerate_to_index(w, a):
+    """R4: `for (i, PAT) in v.iter().enumerate() {` -> `for i in 0..v.len() {` + `let PAT = &v[i];`"""
+    k = a
+    names = []
+    while k < len(w.lines) and k <= w.block_end(a):
+        l = w.lines[k]
+        mm = re.match(r"^(\s*)for \((\w+), (\(.*\))\) in (\w+)\.iter\(\)\.enumerate\(\) \{$", l)
+        if mm:
+            w.rewrite_lines("R4-enumerate", k, k, [f"{mm.group(1)}for {mm.group(2)} in 0..{mm.group(4)}.len() {{", f"{mm.group(1)}    let {mm.group(3)} = &{mm.group(4)}[{mm.group(2)}];"], note="enumerate() over a slice iterator as an index loop")
+            names.append((mm.group(2), mm.group(4)))
+        elif re.match(r"^(\s*)for \((\w+), (\(.*\))\) in$", l) and k + 2 < len(w.lines) and re.match(r"^\s*(\w+)\.iter\(\)\.enumerate\(\)$", w.lines[k + 1]) and w.lines[k + 2].strip() == "{":
+            m1 = re.match(r"^(\s*)for \((\w+), (\(.*\))\) in$", l)
+            v = re.match(r"^\s*(\w+)\.iter", w.lines[k + 1]).group(1)
+            w.rewrite_lines("R4-enumerate", k, k + 2, [f"{m1.group(1)}for {m1.group(2)} in 0..{v}.len() {{", f"{m1.group(1)}    let {m1.group(3)} = &{v}[{m1.group(2)}];"], note="enumerate() over a slice iterator as an index loop")
+            names.append((m1.group(2), v))
+        k += 1
+    return names
+
+
+def weave_resolve(w, sc):
+    strip_clippy(w)
+    unchain_let(w)
+    w.rewrite_regex("R2-type-substitution", r"context: &mut HashMap<&'a str, usize>,", "context: &mut Context<'a>,", expect=1, note="the name -> depth map is modelled by stubs with HashMap's method names")
+    w.rewrite_regex("R2-type-substitution", r"source_path: Option<&'a Path>,", "source_path: SourcePath<'a>,", expect=1, note="only passed on to the error constructors")
+    i = 0
+    while i < len(w.lines):
+        if re.match(r"^\s*errors\.push\(throw::<Error>\($", w.lines[i]):
+            j = w.block_end(i)
+            ind = re.match(r"^\s*", w.lines[i]).group(0)
+            w.rewrite_lines("R15-error-value", i, j, [ind + "errors.push(opaque_error());"], note="the error value (message, listing) is outside the property; only the fact that one is pushed matters")
+        i += 1
+    w.rewrite_regex("R9-fresh-hole", r"Rc::new\(RefCell::new\(None\)\)", "fresh_hole()", note="a new cell holding None is an unresolved hole (hole model)")
+    # Lambda arm: Option::map with a closure that captures &mut state -> match
+    i = w.find(r"^\s*let (\w+) = (\w+)\.as_ref\(\)\.map\(\|(\w+)\| \{$")
+    m = re.match(r"^(\s*)let (\w+) = (\w+)\.as_ref\(\)\.map\(\|(\w+)\| \{$", w.lines[i])
+    j = w.block_end(i)
+    ind = m.group(1)
+    w.rewrite_lines("R10-option-map", i, j, [f"{ind}let {m.group(2)} = match {m.group(3)}.as_ref() {{", f"{ind}    Some({m.group(4)}) => Some({{"] + w.lines[i + 1 : j] + [f"{ind}    }}),", f"{ind}    None => None,", f"{ind}}};"],
+                    note="closure capturing `&mut` state (unsupported by Verus) as the equivalent match")
+    p = r18_simple(w, 0)
+    r18_simple(w, p + 1)
+    i = w.find(r"^\s*(\w+)\.map_or_else\($")
+    j = w.block_end(i)
+    ind = re.match(r"^\s*", w.lines[i]).group(0)
+    opt = re.match(r"^\s*(\w+)\.map_or_else", w.lines[i]).group(1)
+    if not (w.lines[i + 1].strip() == "|| {" and w.lines[j - 2].strip() == "}," and w.lines[j - 1].strip() == "Rc::new,"):
+        raise LostAnchor(f"{w._where(i)}: map_or_else(|| {{..}}, Rc::new) expected")
+    w.rewrite_lines("R10-option-map", i, j, [f"{ind}match {opt} {{", f"{ind}    Some(some_value) => Rc::new(some_value),", f"{ind}    None => {{"] + w.lines[i + 2 : j - 2] + [f"{ind}    }}", f"{ind}}},"],
+                    note="map_or_else(default closure, Rc::new) as the equivalent match")
+    a = w.find(r"^        Variant::Let\(_, _, _, _\) => \{$")
+    vec_name = r18_group(w, a)
+    loops = enumerate_to_index(w, a)
+    return vec_name, loops
+
+
+def build_resolve(repo, external=(), canary=None, with_witness=True, boost=False):
+    b = Build("resolve")
+    log = b.log
+    sc = sections(os.path.join(VERIF, "contracts/u6.vrs"))
+    if canary:
+        sc = dict(sc)
+        sc[canary[0] + ".contract"] = sc[canary[1]]
+    parser_rs = Source(repo, "src/parser.rs")
+    term_rs = Source(repo, "src/term.rs")
+    error_rs = Source(repo, "src/error.rs")
+    b.add(RESOLVE_HEADER)
+    b.add(read("spec/core_prelude.rs"))
+    b.add(read("spec/resolve_prelude.rs"))
+    sr = Woven(error_rs, "struct", "SourceRange", log)
+    if sr.attrs != ["#[derive(Clone, Copy, Debug)]"]:
+        raise LostAnchor(f"src/error.rs struct SourceRange: expected #[derive(Clone, Copy, Debug)], found {sr.attrs}")
+    b.add("#[derive(Clone, Copy)]\n" + sr.text())
+    # the core term (output type) lives in a module of its own name, as the real code writes `term::Term`
+    t = Woven(term_rs, "struct", "Term", log)
+    v = Woven(term_rs, "enum", "Variant", log)
+    strip_clippy(v)
+    for w in (t, v):
+        if w.attrs != ["#[derive(Clone, Debug)]"]:
+            raise LostAnchor(f"src/term.rs {w.kind} {w.name}: expected #[derive(Clone, Debug)], found {w.attrs}")
+    log["rewrites"].append({"rule": "R1-derive-clone", "site": "src/term.rs struct Term", "before": "#[derive(Clone, Debug)]", "after": "(assumed Clone impl: r == *self)", "note": "Verus gives a derived non-Copy Clone no specification"})
+    b.add("pub mod term {\nuse super::*;\n")
+    b.add(t.text())
+    b.add(v.text())
+    b.add(CLONE_IMPLS)
+    b.add(TERM_VARIANT_IMPORT)
+    b.add(read("spec/core_prelude_term.rs"))
+    b.add(read("spec/core_spec.rs"))
+    b.add("}\n")
+    sv = Woven(parser_rs, "struct", "SourceVariable", log)
+    if sv.attrs != ["#[derive(Clone, Copy, Debug)]"]:
+        raise LostAnchor(f"src/parser.rs struct SourceVariable: unexpected attributes {sv.attrs}")
+    b.add("#[derive(Clone, Copy)]\n" + sv.text())
+    pt = Woven(parser_rs, "struct", "Term", log)
+    pv = Woven(parser_rs, "enum", "Variant", log)
+    for w in (pt, pv):
+        if w.attrs != ["#[derive(Clone)]"]:
+            raise LostAnchor(f"src/parser.rs {w.kind} {w.name}: expected #[derive(Clone)], found {w.attrs}")
+    b.add(pt.text())
+    b.add(pv.text())
+    b.add(PARSER_CLONE_IMPLS)
+    ph = [l for l in parser_rs.lines if l.startswith("pub const PLACEHOLDER_VARIABLE")]
+    if ph != ['pub const PLACEHOLDER_VARIABLE: &str = "_";']:
+        raise LostAnchor("src/parser.rs: const PLACEHOLDER_VARIABLE not as expected")
+    b.add(ph[0].replace("&str", "&'static str"))
+    b.add(read("spec/parser_view.rs"))
+    b.add(read("spec/resolve_spec.rs"))
+    b.add(read("spec/resolve_context.rs"))
+    b.add(read("spec/resolve_lemmas.rs"))
+
+    cd = Woven(parser_rs, "fn", "collect_definitions", log)
+    strip_clippy(cd)
+    m = re.match(r"^    (\w+): &mut Vec<\(SourceVariable<'a>, Option<Rc<Term<'a>>>, Rc<Term<'a>>\)>,$", cd.lines[1])
+    m2 = re.match(r"^    (\w+): Rc<Term<'a>>,$", cd.lines[2])
+    if not (m and m2):
+        raise LostAnchor("src/parser.rs fn collect_definitions: signature not as expected")
+    sub = lambda x: x.replace("$DEFS", m.group(1)).replace("$TERM", m2.group(1))
+    cd.contract(sub(sc["collect_definitions.contract"]), ret="r")
+    pat = cd.find(r"^\s*Variant::Let\((\w+), (\w+), (\w+), (\w+)\) => \{$")
+    ann = re.match(r"^\s*Variant::Let\(\w+, (\w+), ", cd.lines[pat]).group(1)
+    cd.rewrite_regex("R1-derive-clone", r"\b%s\.clone\(\)" % ann, "clone_option_rc(%s)" % ann, expect=1, note="Option<Rc<Term>>::clone returns an equal value (vstd's Option::clone spec is too weak for Rc payloads)")
+    cd.body_first(sub(sc["collect_definitions.first"]))
+    # the hint after the recursive call is attached where such a tail call exists (without it the contract simply fails)
+    if cd.count(r"^\s*collect_definitions\(%s, (\w+)\.clone\(\)\)$" % m.group(1)):
+        k = cd.find(r"^\s*collect_definitions\(%s, (\w+)\.clone\(\)\)$" % m.group(1))
+        body_name = re.match(r"^\s*collect_definitions\(\w+, (\w+)\.clone\(\)\)$", cd.lines[k]).group(1)
+        cd.bind_tail(r"^\s*collect_definitions\(%s, (\w+)\.clone\(\)\)$" % m.group(1), "collected", sub(sc["collect_definitions.tail"]).replace("$BODY", body_name))
+    b.add_fn(cd, external="collect_definitions" in external)
+
+    rv = Woven(parser_rs, "fn", "resolve_variables", log)
+    weave_resolve_contract(rv, sc)
+    b.add_fn(rv, external="resolve_variables" in external)
+    if with_witness:
+        b.add(read("spec/resolve_witness.rs"))
+        b.add(sc["canary.calls"])
+    b.add("} // verus!\nfn main() {}\n")
+    return b
+
+
+def weave_resolve_contract(w, sc):
+    vec_name, loops = weave_resolve(w, sc)
+    if len(loops) != 2:
+        raise LostAnchor(f"{w.src.rel} fn resolve_variables: expected two enumerate loops in the Let arm, found {len(loops)}")
+    a = w.find(r"^        Variant::Let\(_, _, _, _\) => \{$")
+    # names the hints must mention, taken from the code
+    c = w.find(r"^\s*let (\w+) = collect_definitions\(&mut (\w+), Rc::new\(term\.clone\(\)\)\);$", start=a)
+    inner, defs = re.match(r"^\s*let (\w+) = collect_definitions\(&mut (\w+), ", w.lines[c]).groups()
+    # the depth of the group: the single-line `let X = ..;` between the first loop and the vector of results
+    l1 = w.find(r"^\s*for %s in 0\.\.%s\.len\(\) \{$" % (loops[0][0], defs), start=a)
+    nd = w.find(r"^            let (\w+) = [^;]*;$", start=w.block_end(l1) + 1)
+    newd = re.match(r"^\s*let (\w+) = ", w.lines[nd]).group(1)
+    rs = w.find(r"^\s*let mut (\w+) = vec!\[\];$", start=nd)
+    res = re.match(r"^\s*let mut (\w+) = ", w.lines[rs]).group(1)
+    (i1, _), (i2, _) = loops
+    sub = lambda text, i="": text.replace("$DEFS", defs).replace("$ADDED", vec_name).replace("$RES", res).replace("$NEWD", newd).replace("$INNER", inner).replace("$I", i)
+    ins = lambda at, text: w.lines.__setitem__(slice(at, at), text.rstrip("\n").split("\n"))
+    # work bottom-up so that earlier indices stay valid
+    f3 = w.find(r"^\s*for (\w+) in %s\.iter\(\) \{$" % vec_name, start=a)
+    e3 = w.block_end(f3)
+    ins(e3 + 1, sub(sc["let.end"]))
+    ins(f3 + 1, sub(sc["let.loop3.first"]))
+    m3 = re.match(r"^(\s*for \w+ in )(.*) \{$", w.lines[f3])
+    w.lines[f3 : f3 + 1] = [m3.group(1) + "it: " + m3.group(2)] + sub(sc["let.loop3.invariant"]).rstrip("\n").split("\n") + ["            {"]
+    r0 = w.find(r"^            let result = term::Term \{$", start=a)
+    r1 = w.block_end(r0)
+    ins(r1 + 1, sub(sc["let.after_result"]))
+    ins(r0, sub(sc["let.before_result"]))
+    # loop 2
+    f2 = w.find(r"^\s*for %s in 0\.\.%s\.len\(\) \{$" % (i2, defs), nth=2, start=a)
+    e2 = w.block_end(f2)
+    p2 = w.find(r"^\s*%s\.push\(\($" % res, start=f2)
+    ra = w.find(r"^\s*let (\w+) = match (\w+) \{$", start=f2)
+    rann = re.match(r"^\s*let (\w+) = match", w.lines[ra]).group(1)
+    ins(w.block_end(p2) + 1, sub(sc["let.loop2.last"], i2).replace("$RANN", rann))
+    ins(w.block_end(ra) + 1, sub(sc["let.loop2.mid"], i2).replace("$RANN", rann))
+    ins(f2 + 2, sub(sc["let.loop2.first"], i2))
+    m2 = re.match(r"^(\s*for \w+ in )(.*) \{$", w.lines[f2])
+    w.lines[f2 : f2 + 1] = [m2.group(1) + "it2: " + m2.group(2)] + sub(sc["let.loop2.invariant"], i2).rstrip("\n").split("\n") + ["            {"]
+    ins(nd + 1, sub(sc["let.after_loop1"]))
+    # loop 1
+    f1 = w.find(r"^\s*for %s in 0\.\.%s\.len\(\) \{$" % (i1, defs), start=a)
+    e1 = w.block_end(f1)
+    ins(e1, sub(sc["let.loop1.last"], i1))
+    pushes = [k for k in range(f1, e1) if re.match(r"^\s*%s\.push\((.*)\);$" % vec_name, w.lines[k])]
+    if pushes:
+        p1 = pushes[0]
+        name = re.match(r"^\s*\w+\.push\((.*)\);$", w.lines[p1]).group(1)
+        ins(p1 + 1, sub(sc["let.loop1.pushed"], i1).replace("$NAME", name))
+    ins(f1 + 2, sub(sc["let.loop1.first"], i1))
+    m1 = re.match(r"^(\s*for \w+ in )(.*) \{$", w.lines[f1])
+    w.lines[f1 : f1 + 1] = [m1.group(1) + "it1: " + m1.group(2)] + sub(sc["let.loop1.invariant"], i1).rstrip("\n").split("\n") + ["            {"]
+    ins(c + 1, sub(sc["let.after_collect"]))
+    w.log["annotations"].append({"fn": w.name, "kind": "let-arm hints and loop invariants", "count": 12})
+    la = w.find(r"^        Variant::Lambda\(\w+, \w+, \w+, \w+\) => \{$")
+    lr = w.find(r"^            let result = term::Term \{$", start=la)
+    if lr > w.block_end(la):
+        raise LostAnchor(f"{w.src.rel} fn resolve_variables: result of the Lambda arm not found")
+    ins(w.block_end(lr) + 1, sc["lambda.after_result"])
+    w.contract(sc["resolve_variables.contract"], ret="r")
+    w.body_first(sc["resolve_variables.first"])
+
+
 def canaries(unit):
     """fn -> sidecar section holding a deliberately wrong contract (must-fail vacuity guard)."""
     if unit == "core":
         return {fn: fn + ".canary" for fn in ("signed_shift", "unsigned_shift", "open", "free_variables", "is_value", "step", "step_strict")}
     if unit == "parser":
         return {fn: fn + ".canary" for fn in ("reassociate_applications", "reassociate_products_and_quotients", "reassociate_sums_and_differences")}
+    if unit == "resolve":
+        return {fn: fn + ".canary" for fn in ("resolve_variables", "collect_definitions")}
     if unit == "packrat":
         # claim that everything is a `group` (and that a group is a `type`): false for every function
         return {}
@@ -1034,7 +1335,7 @@ def packrat_canaries(repo):
 if __name__ == "__main__":
     import sys, json
     which = sys.argv[3] if len(sys.argv) > 3 else "core"
-    b = {"core": build_core, "parser": build_parser, "packrat": build_packrat}[which](sys.argv[1] if len(sys.argv) > 1 else "/repo")
+    b = {"core": build_core, "parser": build_parser, "packrat": build_packrat, "resolve": build_resolve}[which](sys.argv[1] if len(sys.argv) > 1 else "/repo")
     dst = sys.argv[2] if len(sys.argv) > 2 else "/var/tmp/gv/core.rs"
     with open(dst, "w") as f:
         f.write(b.text())
